@@ -370,11 +370,14 @@ def explore_words(res, cfg, form, L):
 # --------------------------------------------------------------------------------------------------
 # run driver
 
-def judge_run(res, cfg, length):
+def judge_run(res, cfg, length, with_none=False):
     kind, n = cfg["kind"], cfg["n"]
     case = dict(cfg)
     case.update({"law": "run", "len": length})
     values = M.flow_values(kind, length)
+    if with_none:
+        case["none_values"] = True
+        values = M.flow_values_with_none(kind, length)
     via = "run" if kind in M.USES_EL_RUN else "fill"
     expected = M.concat(M.ref_blocks(kind, values, n, cfg["reset"], cfg["yor"], via))
     problem = None
@@ -419,6 +422,8 @@ def judge_run(res, cfg, length):
     if problem is not None:
         cause = {"law": "run", "defect": problem[0], "kind": kind, "reset": cfg["reset"],
                  "buffering": "unused-yield_on_remainder" if cfg["yor"] else cfg["buffer"]}
+        if with_none:
+            cause["none_among_the_values"] = True
         res.violation(case, problem[1], expected, cause)
 
 
@@ -549,6 +554,8 @@ def run_shard(p, tier):
         for cfg in configs(p["kind"], n):
             for length in range(0, d["run_blocks"] * n + 2):
                 judge_run(res, cfg, length)
+                if length and p["kind"] in M.NONE_OK:
+                    judge_run(res, cfg, length, with_none=True)
     elif drv == "split":
         n = p["n"]
         for cfg in configs(p["kind"], n):
@@ -588,7 +595,7 @@ def replay(case):
             if not judge_word(res, cfg, case["form"], word[:i], model, set()):
                 break
     elif law == "run":
-        judge_run(res, cfg, case["len"])
+        judge_run(res, cfg, case["len"], bool(case.get("none_values")))
     elif law == "split":
         judge_split(res, cfg, case["form"], case["B"], case["len"])
     elif law == "frs-run":
